@@ -57,3 +57,29 @@ def hdlc_frame_with(payload: bytes) -> bytes:
     """A well-formed HDLC frame (unstuffed) carrying payload as its information field, delimited by flags."""
     fr = GH.build_frame(0xA, 0, b"\x01", b"\x02\x01", 0x10, payload[:2030])
     return b"\x7e" + fr + b"\x7e"
+
+
+# ---- preludes: other decoders' work done in the same process before the decode under test -----------------------------------
+# (decoders are documented as independent pure functions: whatever another decoder did before must not matter)
+
+PRELUDES = ["none", "aidon", "kaifa", "kamstrup", "p1", "all"]
+_PRELUDE_MSGS = {
+    "aidon": ["aidon/frame/no_list_3", "aidon/body/se_list", "gen/aidon/body"],
+    "kaifa": ["kaifa/frame/no_list_3", "kaifa/body/no_list_2", "kaifa/body/se_list", "gen/kaifa/frame14"],
+    "kamstrup": ["kamstrup/frame/no_list_2_three_phase", "kamstrup/body/no_list_1_single_phase_real_sample", "gen/kamstrup/frame-ct-padded"],
+    "p1": ["p1/readout/c", "p1/readout/b", "gen/p1/small"],
+}
+
+
+def run_prelude(kind: str) -> None:
+    if kind == "none":
+        return
+    from han import autodecoder
+
+    names = sum(_PRELUDE_MSGS.values(), []) if kind == "all" else _PRELUDE_MSGS[kind]
+    ad = autodecoder.AutoDecoder()
+    for n in names:
+        try:
+            ad.decode_message_payload(GENUINE[n][0])
+        except Exception:  # noqa: BLE001 - the prelude's own outcome is not judged here
+            pass
